@@ -221,24 +221,45 @@ CORE_NAMES = ("p", "p2", "h1", "setext2", "ul", "ul-loose", "ol", "ul-nested", "
 
 
 class UnusualSpace(BlockSpace):
-    """Singles of UNUSUAL, and every pair (unusual, x) / (x, unusual) with x ranging over UNUSUAL and the core blocks."""
+    """Singles of UNUSUAL, and every pair (unusual, x) / (x, unusual) with x ranging over UNUSUAL and the core blocks.
+    Alphabet = core blocks (index 0 = plain paragraph, so that shrinking moves towards it) followed by UNUSUAL."""
 
     def __init__(self, prop, name, oracle, ctxs, widths, modes=(False, True), floors=None):
-        blocks = UNUSUAL + [b for b in BLOCKS if b[0] in CORE_NAMES]
-        super().__init__(prop, name, oracle, ctxs, 2, widths, modes=modes, full_upto=2, floors=floors, blocks=blocks)
-        self.nu = len(UNUSUAL)
+        core = [b for n in CORE_NAMES for b in BLOCKS if b[0] == n]
+        super().__init__(prop, name, oracle, ctxs, 2, widths, modes=modes, full_upto=2, floors=floors, blocks=core + UNUSUAL)
+        self.nc = len(core)
+        self.names = [b[0] for b in self.blocks]
 
     def cases(self):
         n = len(self.blocks)
         for ci in range(len(self.ctxs)):
-            for u in range(self.nu):
+            for u in range(self.nc, n):
                 for width in self.widths:
                     for sem in self.modes:
                         yield (ci, (u,), (), width, sem)
-            for u in range(self.nu):
+            for u in range(self.nc, n):
                 for x in range(n):
-                    for bs in ((u, x), (x, u)) if x >= self.nu or x > u else ((u, x),) if x == u else ():
+                    if x >= self.nc and x < u:
+                        continue  # (unusual, unusual) pairs once per ordered pair
+                    for bs in {(u, x), (x, u)}:
                         for j in ("b", "n"):
                             for width in self.widths:
                                 for sem in self.modes:
                                     yield (ci, bs, (j,), width, sem)
+
+    def rep_of(self, b):
+        """Core representative of the same family, else the plain paragraph."""
+        name = self.names[b]
+        for prefix, rep in (("ul", "ul"), ("ol", "ol"), ("task", "ul"), ("bq", "bq"), ("alert", "bq"), ("code", "code"), ("table", "table"),
+                            ("hr", "hr-"), ("def", "def"), ("fn", "fn"), ("setext", "setext2"), ("atx", "h1"), ("html", "html")):
+            if name.startswith(prefix) and rep in self.names:
+                return self.names.index(rep)
+        return 0
+
+    def smaller(self, case):
+        ci, bs, joins, width, sem = case
+        for i in range(len(bs)):
+            for r in (self.rep_of(bs[i]), 0):
+                if r != bs[i] and r < bs[i]:
+                    yield (ci, bs[:i] + (r,) + bs[i + 1:], joins, width, sem)
+        yield from super().smaller(case)
